@@ -5,6 +5,7 @@ import (
 	"encoding/hex"
 	"encoding/json"
 	"fmt"
+	"runtime"
 	"runtime/debug"
 	"strings"
 	"sync"
@@ -29,7 +30,7 @@ var clockB = fixedClock{time.Date(2031, time.December, 30, 23, 59, 58, 0, time.U
 type protoCase struct {
 	ID      string `json:"id"`
 	Entry   string `json:"entry"`
-	Chan    string `json:"chan"` // none | unbuf | buf
+	Chan    string `json:"chan"` // none | unbuf | buf | bufSmall
 	Profile string `json:"profile"`
 	Data    string `json:"data"`
 	PClass  string `json:"pclass"`
@@ -41,6 +42,8 @@ type protoCase struct {
 	Repeat int `json:"repeat,omitempty"`
 	// Debug is passed as the entry points' debug argument; it must change nothing that is observed
 	Debug bool `json:"debug,omitempty"`
+	// ReuseVar: the channel is handed over through one package-level variable shared by all such cases
+	ReuseVar bool `json:"reuseVar,omitempty"`
 }
 
 type callObs struct {
@@ -77,19 +80,66 @@ type protoObs struct {
 const watchdog = 45 * time.Second // generous: a loaded machine must not turn a slow call into a "blocked" one
 
 type chanRec struct {
-	ch     chan events.Event
-	mu     sync.Mutex
-	evs    []events.Event
-	done   chan struct{}
-	mode   string
-	closed bool
+	ch       chan events.Event
+	mu       sync.Mutex
+	evs      []events.Event
+	done     chan struct{}
+	mode     string
+	closed   bool
+	callDone chan struct{} // bufSmall: closed when the (first) call on this channel has returned
+	once     sync.Once
 }
+
+// sharedChanVar is ONE variable through which every other case passes its (fresh) channel: a caller that keeps a single
+// `var ch chan events.Event` and re-makes it per call is as legal as one that declares a new variable each time.
+var sharedChanVar chan events.Event
 
 func newChanRec(mode string) *chanRec {
 	c := &chanRec{mode: mode, done: make(chan struct{})}
 	if mode == "buf" {
 		c.ch = make(chan events.Event, 64)
 		close(c.done)
+	} else if mode == "bufSmall" {
+		// a small buffer and a lazy listener: it takes an event only once the buffer is full (and then hesitates), or
+		// when the call is over.  The library must wait for it; no event may be lost or reordered.
+		c.ch = make(chan events.Event, 2)
+		c.callDone = make(chan struct{})
+		go func() {
+			defer close(c.done)
+			record := func(e events.Event) {
+				if e.EventType == sentinelEvent {
+					return
+				}
+				c.mu.Lock()
+				c.evs = append(c.evs, e)
+				c.mu.Unlock()
+			}
+			over := false
+			for !over {
+				for len(c.ch) < cap(c.ch) && !over {
+					select {
+					case <-c.callDone:
+						over = true
+					default:
+						runtime.Gosched()
+					}
+				}
+				if over {
+					break
+				}
+				for i := 0; i < 2000; i++ {
+					runtime.Gosched()
+				}
+				e, ok := <-c.ch
+				if !ok {
+					return
+				}
+				record(e)
+			}
+			for e := range c.ch {
+				record(e)
+			}
+		}()
 	} else {
 		c.ch = make(chan events.Event)
 		go func() {
@@ -147,7 +197,11 @@ func (c *chanRec) syncProbe() (closed bool) {
 			c.closed = true
 		}
 	}()
-	c.ch <- events.Event{EventType: sentinelEvent}
+	// with a buffer of k slots, k+1 sentinels: once the last send has completed the first sentinel has been received,
+	// and with it everything the library sent before (FIFO)
+	for i := 0; i <= cap(c.ch); i++ {
+		c.ch <- events.Event{EventType: sentinelEvent}
+	}
 	return false
 }
 
@@ -301,6 +355,10 @@ func runProto(c protoCase) protoObs {
 	if c.Chan != "none" {
 		rec = newChanRec(c.Chan)
 		chp = &rec.ch
+		if c.ReuseVar {
+			sharedChanVar = rec.ch
+			chp = &sharedChanVar
+		}
 	}
 	var all []events.Event
 	doCall := func(entry string, last bool, f func() (string, *rego.PreparedEvalQuery, error)) outcome {
@@ -311,6 +369,9 @@ func runProto(c protoCase) protoObs {
 		}
 		if o.kind == "report" {
 			co.Conforms, co.Sha = reportFacts(o.report)
+		}
+		if rec != nil && rec.callDone != nil {
+			rec.once.Do(func() { close(rec.callDone) })
 		}
 		if rec != nil && o.kind != "timeout" {
 			es, closedSeen := rec.take()
